@@ -106,6 +106,54 @@ func genC12(tier string, seed int64) (*Family, error) {
 			}
 		}
 	}
-	finishFamily(fam, pkg, b.String())
+	// the pool's wrappers of the selected entry points (same oracles, data injected per request)
+	b.WriteString(`
+func poolFor(n int, s []int64) *engine.GenginePool {
+	apis := map[string]interface{}{"ev": func(x string) { vnd.Event(x) }, "one": int64(1), "zero": int64(0)}
+	vnd.ExploreMapOrder(true)
+	gp, e := engine.NewGenginePool(1, 2, engine.SortModel, rulesText(n, s), apis)
+	vnd.ExploreMapOrder(false)
+	must(e, "pool construction")
+	return gp
+}
+
+func flagData(f []bool) map[string]interface{} {
+	d := map[string]interface{}{}
+	for i := range f {
+		d["f"+strconv.Itoa(i)] = f[i]
+	}
+	return d
+}
+`)
+	addPool := func(name, stratum, desc, call, oracle string) {
+		fmt.Fprintf(&b, "\n// %s\nfunc %s() {\n\tn := %d\n\ts := symSal(n)\n\tf := symFlags(\"f\", n)\n\tb := vnd.Bool(\"b\")\n\t_ = b\n\tgp := poolFor(n, s)\n\tdata := flagData(f)\n\terr, _ := %s\n\tvnd.Event(\"ret\")\n\tvnd.Quiesce()\n\tvnd.Reach(\"executed\")\n\ttr := vnd.Trace()\n\t_ = tr\n%s}\n", desc, name, n, call, oracle)
+		fam.Instances = append(fam.Instances, Instance{Func: name, Stratum: stratum, Desc: desc, Expect: []string{"executed"}})
+	}
+	{
+		names3, cand3 := goStrings([]string{"r1", "r2", "r0"}), "[]bool{true, true, true"+strings.Repeat(", false", n-3)+"}"
+		namesU, candU := goStrings([]string{"r2", "zz", "r1"}), "[]bool{false, true, true"+strings.Repeat(", false", n-3)+"}"
+		addPool("P_Sel", "pool:ExecuteSelectedRules", "pool.ExecuteSelectedRules [r1 r2 r0]", "gp.ExecuteSelectedRules(data, "+names3+")", "\tcheckSorted(tr, n, "+cand3+", s, f, true, err)\n")
+		addPool("P_SelControl", "pool:ExecuteSelectedRulesWithControl", "pool.ExecuteSelectedRulesWithControl [r2 zz r1]", "gp.ExecuteSelectedRulesWithControl(data, b, "+namesU+")", "\tcheckSorted(tr, n, "+candU+", s, f, b, err)\n")
+		addPool("P_SelAsGiven", "pool:ExecuteSelectedRulesWithControlAsGivenSortedName", "pool.ExecuteSelectedRulesWithControlAsGivenSortedName [r1 r2 r0]", "gp.ExecuteSelectedRulesWithControlAsGivenSortedName(data, b, "+names3+")", "\tcheckAsGiven(tr, n, []int{1, 2, 0}, nil, f, b, err)\n")
+		addPool("P_SelStopTag", "pool:ExecuteSelectedRulesWithControlAndStopTag", "pool.ExecuteSelectedRulesWithControlAndStopTag [r1 r2 r0]", "gp.ExecuteSelectedRulesWithControlAndStopTag(data, b, &engine.Stag{}, "+names3+")", "\tcheckSorted(tr, n, "+cand3+", s, f, b, err)\n")
+		addPool("P_SelStopTagAsGiven", "pool:ExecuteSelectedRulesWithControlAndStopTagAsGivenSortedName", "pool.ExecuteSelectedRulesWithControlAndStopTagAsGivenSortedName [r2 zz r1]", "gp.ExecuteSelectedRulesWithControlAndStopTagAsGivenSortedName(data, b, &engine.Stag{}, "+namesU+")", "\tcheckAsGiven(tr, n, []int{2, 1}, nil, f, b, err)\n")
+		addPool("P_SelConc", "pool:ExecuteSelectedRulesConcurrent", "pool.ExecuteSelectedRulesConcurrent [r1 r2 r0]", "gp.ExecuteSelectedRulesConcurrent(data, "+names3+")", "\tcheckTwoStageCand(tr, n, "+cand3+", 3, 0, false, false, s, f, true, err)\n")
+		addPool("P_SelMix", "pool:ExecuteSelectedRulesMixModel", "pool.ExecuteSelectedRulesMixModel [r1 r2 r0]", "gp.ExecuteSelectedRulesMixModel(data, "+names3+")", "\tcheckTwoStageCand(tr, n, "+cand3+", 1, 2, true, false, s, f, false, err)\n")
+		addPool("P_SelInverse", "pool:ExecuteSelectedRulesInverseMixModel", "pool.ExecuteSelectedRulesInverseMixModel [r1 r2 r0]", "gp.ExecuteSelectedRulesInverseMixModel(data, "+names3+")", "\tcheckTwoStageCand(tr, n, "+cand3+", 2, 1, false, true, s, f, false, err)\n")
+		for _, nmv := range []struct {
+			fn     string
+			s1, s2 bool
+		}{{"ExecuteSelectedNSortMConcurrent", true, false}, {"ExecuteSelectedNConcurrentMSort", false, true}, {"ExecuteSelectedNConcurrentMConcurrent", false, false}} {
+			for _, sp := range [][2]int{{1, 2}, {2, 1}} {
+				addPool(fmt.Sprintf("P_%s_%d_%d", strings.TrimPrefix(nmv.fn, "ExecuteSelected"), sp[0], sp[1]), "pool:"+nmv.fn, fmt.Sprintf("pool.%s N=%d M=%d [r1 r2 r0]", nmv.fn, sp[0], sp[1]),
+					fmt.Sprintf("gp.%s(%d, %d, b, %s, data)", nmv.fn, sp[0], sp[1], names3), fmt.Sprintf("\tcheckTwoStageCand(tr, n, %s, %d, %d, %v, %v, s, f, b, err)\n", cand3, sp[0], sp[1], nmv.s1, nmv.s2))
+			}
+			addPool("P_"+strings.TrimPrefix(nmv.fn, "ExecuteSelected")+"_unknown", "pool:"+nmv.fn, "pool."+nmv.fn+" with an unknown name", fmt.Sprintf("gp.%s(1, 2, b, %s, data)", nmv.fn, namesU), "\tnothingRan(n, err)\n")
+		}
+	}
+	fam.Files[repoDir+"/zz_verif/"+pkg+"/h.go"] = strings.Replace(stdHead(pkg), "import (", "import (\n\t\"strconv\"", 1) + b.String()
+	fam.Files[repoDir+"/zz_verif/"+pkg+"/lib.go"] = libFile(pkg)
+	fam.TestFile = repoDir + "/zz_verif/" + pkg + "/zz_replay_test.go"
+	fam.TestSrc = testFile(pkg, fam.Instances)
 	return fam, nil
 }
